@@ -231,6 +231,11 @@ def twin_c15(seed, n):
         return "q"
     for i in slots:
         a[i] = obs(ra); b[i] = obs(rb)
+    if seed % 2 == 1:
+        # odd seeds: in run B the callbacks themselves register/unregister other callbacks and change the user data
+        # while the library is in the middle of a parse call ("inside or outside callbacks")
+        for i in slots[::3]:
+            b[i] = "ri %d" % rb.randrange(1, 4)
     return {"a": a, "b": b, "pairs": [(i, i) for i in range(len(a)) if base[i] is not None], "keys": None,
             "events": False, "ret": True, "nontrivial": len(slots)}
 
